@@ -19,6 +19,10 @@ pub struct CrashCfg {
     pub pols: Vec<Pol>,
     pub max_points: usize,
     pub cont_every: u64,
+    /// inject an I/O error at every call of the recovery of some crash images (C11)
+    pub fault_sweeps: bool,
+    /// one case in `create_heavy_den` is dominated by create_queue calls with long names
+    pub create_heavy_den: u64,
 }
 
 struct CallInfo {
@@ -97,12 +101,17 @@ struct MainRun {
 /// run the main-line history: generated (`fixed = None`) or replayed
 fn run_main(r: &mut Runner, rng: &mut Rng, len: usize, cfg: &CrashCfg, fixed: Option<&[Op]>) -> MainRun {
     let mut pol = *rng.pick(&cfg.pols);
+    let create_heavy = rng.chance(1, cfg.create_heavy_den);
+    // a sixth of the create-heavy cases make nothing but queues: no record ever pins a file, no
+    // call collects files, so recovery itself finds the files to reclaim
+    let create_only = create_heavy && rng.chance(1, 2);
     let gcfg = GenCfg {
         allow_reopen: rng.chance(1, 3),
         reopen_pols: vec![pol],
         big_weight: 5 + rng.below(8),
-        max_queues: 1 + rng.below(4) as usize,
+        max_queues: if create_only { 1000 } else if create_heavy { 16 } else { 1 + rng.below(4) as usize },
         allow_rejected: rng.chance(1, 2),
+        create_heavy,
         ..Default::default()
     };
     let mut bm = BufModel::default();
@@ -300,7 +309,7 @@ pub fn case_crash(scratch: &Path, meta: usize, id: &str, seed: u64, len: usize, 
         write_image(&side.real.dir, &img_vec);
         let (oc, evs) = side.real.open(Pol::AlwaysFlush, None);
         // the `crash` line is a main-line op for the model driver
-        let crash_op = Op::Crash { k, cut, pol: Pol::AlwaysFlush, instant: if class == 3 { Some(instant) } else { None }, drop: pdrop, zero: pzero };
+        let crash_op = Op::Crash { k, cut, pol: Pol::AlwaysFlush, instant: if class == 3 { Some(instant) } else { None }, drop: pdrop.clone(), zero: pzero.clone(), fail: None };
         r.ops.push((false, crash_op.clone()));
         r.annot.push(format!("{} order={}", crash_op.line(), gc_order(&evs)));
         r.out.push(dir_line(&img_vec));
@@ -328,6 +337,15 @@ pub fn case_crash(scratch: &Path, meta: usize, id: &str, seed: u64, len: usize, 
         match &oc {
             Outcome::OpenOk(_) => {
                 r.out.push(effects_line(&evs));
+                if evs.iter().any(|e| matches!(e, Event::Write { .. })) {
+                    r.stats.inc("crash.recovery_gc_wrote");
+                }
+                // an open_file after the last block read is the roll-over of recovery's own GC pass
+                // into a file that already exists
+                let last_read = evs.iter().rposition(|e| matches!(e, Event::ReadBlock(_))).unwrap_or(0);
+                if evs[last_read..].iter().any(|e| matches!(e, Event::OpenFile(_))) {
+                    r.stats.inc("crash.recovery_gc_rolled_into_existing_file");
+                }
                 let obs = side.real.obs().unwrap();
                 let rec = logical(&obs);
                 let spec_at = |j: usize| -> &Spec { if j == 0 { &empty_spec } else { &calls[j - 1].spec } };
@@ -441,6 +459,34 @@ pub fn case_crash(scratch: &Path, meta: usize, id: &str, seed: u64, len: usize, 
                         // oracle failures of the continuation are C02 failures ("fully usable")
                         for v in side.viol.drain(..) {
                             r.violate("C02", format!("{}; continuation: [{}] {}", ctx, v.prop, v.what));
+                        }
+                    }
+                }
+                // the continuation's lines come before the fault sweep of the same image
+                r.ops.extend(side.ops.drain(..));
+                r.annot.extend(side.annot.drain(..));
+                r.out.extend(side.out.drain(..));
+                // C11 on crash images: an I/O error at any list/open/read call of this recovery
+                // (including the open_file of a roll-over made by its GC pass) must be reported
+                if let Outcome::OpenOk(io_calls) = &oc {
+                    if replay.is_none() && cfg.fault_sweeps && (class == 2 && rng.chance(1, 3) || rng.chance(1, 40)) {
+                        for n in 0..*io_calls {
+                            write_image(&side.real.dir, &img_vec);
+                            side.real.log = None;
+                            let plan = mrecordlog::verif_hooks::FaultPlan { fail_at: n, forever: rng.chance(1, 2), kind: std::io::ErrorKind::Other };
+                            let (foc, fevs) = side.real.open(Pol::AlwaysFlush, Some(plan));
+                            let fop = Op::Crash { k, cut, pol: Pol::AlwaysFlush, instant: if class == 3 { Some(instant) } else { None }, drop: pdrop.clone(), zero: pzero.clone(), fail: Some(n) };
+                            r.ops.push((false, fop.clone()));
+                            r.annot.push(format!("{} order={}", fop.line(), gc_order(&fevs)));
+                            r.out.push(dir_line(&img_vec));
+                            r.out.push(foc.line());
+                            r.stats.inc("crash.fault_injected");
+                            if matches!(foc, Outcome::OpenOk(_)) {
+                                r.out.push(effects_line(&fevs));
+                            }
+                            if !matches!(foc, Outcome::OpenErrIo) {
+                                r.violate("C11", format!("{}: I/O error injected at call #{} of a recovery that makes {} calls: open returned {:?}", ctx, n, io_calls, foc));
+                            }
                         }
                     }
                 }
